@@ -120,6 +120,23 @@ pub fn run(ctx: &Ctx, ev: &mut Ev) {
             }
         }
     }
+    // (b2) huge sources: lengths on both sides of 2^16 (thorough: 2^17, 2^20) for every function, sufficient and (for the
+    // partial functions) half-size destinations
+    if ctx.want("huge") && !tiny {
+        let mut r = ctx.fixed_rng(151);
+        let sizes: Vec<usize> = if th { vec![65_535, 65_536, 65_537, 70_001, 131_073, (1 << 20) + 1] } else { vec![65_535, 65_536, 65_537, 70_001] };
+        for &n in sizes.iter() { for &f in ALL_MEM.iter() {
+            if !ev.mine() { continue; }
+            let mut src = Src::default();
+            while src.len(f) < n { let seg = gen_src(&mut r, f.src_kind(), 60); src.bytes.extend_from_slice(&seg.bytes); src.units.extend_from_slice(&seg.units); if seg.bytes.is_empty() && seg.units.is_empty() { src.bytes.push(b'a'); src.units.push(0x61); } }
+            src.bytes.truncate(if src.units.is_empty() || !src.bytes.is_empty() { n } else { 0 }); src.units.truncate(n);
+            if matches!(f.src_kind(), SrcKind::Str | SrcKind::Latin1Str) { while std::str::from_utf8(&src.bytes).is_err() { src.bytes.pop(); } }
+            let len = src.len(f);
+            let suf = f.sufficient(len);
+            check(&mut drv, ev, f, &src, suf, 0xA5, n % 16, (n / 3) % 16, 0, true);
+            if f.partial() { check(&mut drv, ev, f, &src, suf / 2, 0x00, 3, 5, 0, true); check(&mut drv, ev, f, &src, 65_536, 0xFF, 1, 1, 0, true); }
+        } }
+    }
     // (c) seeded random sources (incl. a few of 4 KiB), random destination lengths
     if ctx.want("random") {
         let mut r = ctx.rng(15);
